@@ -35,6 +35,9 @@ type Config struct {
 	Ckpt    bool   `json:"ckpt"`    // WAL: a checkpointer connection (PASSIVE then RESTART)
 	Recover bool   `json:"recover"` // LiteFS's own Store.Recover as at a role change
 	Shrink  bool   `json:"shrink"`  // second transaction shrinks instead of growing
+	// NoPrior: the WAL holds no frame when the race starts, so that after a log restart the second transaction's
+	// frames land on the slots of the first one's (a stale page-to-frame mapping then points at another page).
+	NoPrior bool `json:"noprior,omitempty"`
 }
 
 type pos [2]uint64
@@ -80,7 +83,7 @@ func harness(cfgJSON json.RawMessage) sched.Harness {
 		rec(r.Intended)
 		img := r.Intended
 		setup.Close()
-		if cfg.WAL {
+		if cfg.WAL && !cfg.NoPrior {
 			// committed frames in the WAL before the race starts
 			w := setup.RunWTx(pager.WTx{Frames: []uint32{1, 3}, Outcome: "commit"}, img)
 			if w.Err != nil || !w.Committed {
@@ -114,7 +117,7 @@ func harness(cfgJSON json.RawMessage) sched.Harness {
 				cl.HTTPClient = &http.Client{Transport: net.Transport("client")}
 				rc, err := cl.Export(ctx, "http://P", "db")
 				if err == nil {
-					_, err = io.Copy(&pointWriter{th: th, w: &sBytes, every: ps}, rc)
+					_, err = io.Copy(&pointWriter{th: th, w: &sBytes, every: 3 * ps}, rc) // fewer points: the handler is a thread of its own here
 					rc.Close()
 				}
 				sErr = err
@@ -144,6 +147,11 @@ func harness(cfgJSON json.RawMessage) sched.Harness {
 			defer c.Close()
 			cur := img
 			for i := 0; i < 2; i++ {
+				if i > 0 {
+					// between two transactions the connection holds nothing and has read nothing yet: a checkpointer that
+					// runs here can complete a log restart, which one that runs after the next wal-index read cannot
+					th.Point("between transactions")
+				}
 				var committed bool
 				var intended *oracle.Image
 				var terr error
@@ -299,6 +307,7 @@ func TestCheck(t *testing.T) {
 		{WAL: false, Op: "snapshot"},
 		{WAL: false, Op: "export"},
 		{WAL: true, Op: "export-http", Ckpt: true, Shrink: true},
+		{WAL: true, Op: "export", Ckpt: true, NoPrior: true},
 	}
 	jobBudget := 60 * time.Second
 	if run.Thorough() {
@@ -318,7 +327,11 @@ func TestCheck(t *testing.T) {
 	exhaustive := true
 	for _, cfg := range cfgs {
 		var tot sched.Totals
-		sched.Distributed(t, run, pool, reg, "c10", cfg, bound, 3, jobBudget, &tot)
+		b := bound
+		if cfg.Op == "export-http" {
+			b = bound - 1 // four threads here (client, handler, writer, checkpointer): one preemption less keeps the tier's cost
+		}
+		sched.Distributed(t, run, pool, reg, "c10", cfg, b, 3, jobBudget, &tot)
 		okN := 0
 		for k, n := range tot.Outcomes {
 			distinct[fmt.Sprintf("%s/%s/%s", cfg.Op, mode(cfg), k)] = true
